@@ -4,7 +4,7 @@ Improved copy of the prototype in vt/ref_608.py (which stays untouched): the bit
 tables are imported from there (they are verified exhaustively against the standard's tables by check C17); the state machine
 below is rewritten:
 
-  * 15 x 32 displayed and non-displayed memories, cells (char, colour, italic, underline, sure) or None (transparent);
+  * 15 x 32 displayed and non-displayed memories, cells (char, colour, italic, underline, sure, tag) or None (transparent);
   * modes: pop-on (RCL; characters go to non-displayed memory; EOC swaps the memories and selects pop-on), paint-on (RDC;
     characters go to displayed memory), roll-up (RU2/3/4: coming from pop-on/paint-on both memories are erased, base row 15,
     cursor column 1; a smaller depth erases the rows that leave the window; PAC moves the window with its content to the new
@@ -23,8 +23,13 @@ below is rewritten:
   * characters received before any mode-setting command are discarded.
 
 Not modelled (outside the C08 grammars): text mode (TR/RTD), flash, DER inside a row being overwritten, background attributes.
-The attribute after CR without a following PAC is implementation-defined (the standard lets the pen state persist; some
-decoders reset it): such cells are marked sure=False and their attributes are not asserted.
+
+Cells also carry two pieces of bookkeeping that never influence what is displayed:
+  * sure=False marks attributes that the check does not assert: the pen after CR without a following PAC when it is not the
+    default pen (the standard lets the pen persist, some decoders reset it), after a roll-up PAC for rows 5-11 (ttconv anchors
+    roll-up at row 15 and documents that it ignores those PACs), and after back-to-back mid-row codes other than "colour, italics";
+  * tag names an *input* feature of the cell ("italics-mid-row-code-after-colour", "pair-ending-in-blank-opens-run") so that
+    the check can give known reader defects their own failure bucket.
 """
 from vt.ref_608 import classify, std_char, ROWS, COLS
 
